@@ -12,7 +12,10 @@
         significant bit first): byte for byte what serde_json::to_string printed (the order is the set's iteration order)
    Q cps | s e               -> Document::new_plain_english(text) by the MODELLED parser (module E = gen/c14e_model.ml:
         C02's lexer + passes, Model/C14Edit.v), then LintContext::from_lint for a lint with span [s,e):
-        "idx idx ... ; s,e,TAG,c.c.c ..." (context token indices; per context token span, blanked kind, content), or P *)
+        "idx idx ... ; s,e,TAG,c.c.c ..." (context token indices; per context token span, blanked kind, content), or P
+   U name lo-hi lo-hi ...    -> load the range table of a Unicode predicate (ws | num | alpha | ling) dumped from Rust's
+        char methods (as the c02 driver does); Q uses the four tables once all are loaded (any text), the ASCII
+        restriction C14Edit.ascii_uni before; answers "U name <number of ranges>" *)
 let split c s = List.map String.trim (String.split_on_char c s)
 let ints s = ints_of_line s
 let nats s = List.map nat_of_int (ints s)
@@ -119,6 +122,27 @@ let n_of_bits (w : string) : n =
           | Some q -> Some (if b then XI q else XO q))) w;
   match !p with None -> N0 | Some q -> Npos q
 
+(* Unicode range tables for stream Q (same representation as ocaml/c02_main.ml) *)
+let tables : (string, (int * int) array) Hashtbl.t = Hashtbl.create 8
+let in_table name =
+  fun (c : E.n) ->
+    match Hashtbl.find_opt tables name with
+    | None -> false
+    | Some a ->
+        let x = int_of_en c in
+        let lo = ref 0 and hi = ref (Array.length a - 1) and found = ref false in
+        while not !found && !lo <= !hi do
+          let mid = (!lo + !hi) / 2 in
+          let (l, h) = a.(mid) in
+          if x < l then hi := mid - 1 else if x > h then lo := mid + 1 else found := true
+        done;
+        !found
+let tables_loaded () = List.for_all (fun n -> Hashtbl.mem tables n) ["ws"; "num"; "alpha"; "ling"]
+let uni_now () : E.uni =
+  if tables_loaded () then
+    { E.u_whitespace = in_table "ws"; E.u_numeric = in_table "num"; E.u_alphabetic = in_table "alpha"; E.u_lingual = in_table "ling" }
+  else E.ascii_uni
+
 let () =
   iter_lines (fun l ->
     if String.length l = 0 then print_newline () else
@@ -148,13 +172,23 @@ let () =
       | 'E' ->
           let ws = List.filter (fun w -> w <> "") (String.split_on_char ' ' body) in
           print_endline (string_of_text (run_export (List.map n_of_bits ws)))
+      | 'U' ->
+          (match List.filter (fun w -> w <> "") (String.split_on_char ' ' body) with
+           | name :: ranges ->
+               let a = Array.of_list (List.map (fun r ->
+                   match String.split_on_char '-' r with
+                   | [x; y] -> (int_of_string x, int_of_string y)
+                   | _ -> failwith "bad range") ranges) in
+               Hashtbl.replace tables name a;
+               Printf.printf "U %s %d\n" name (Array.length a)
+           | [] -> print_endline "?")
       | 'Q' ->
           (match split '|' body with
            | [txt; se] ->
                (match ints se with
                 | [a; b] ->
                     let src = List.map en_of_int (ints txt) in
-                    (match E.run_plain_ascii src (enat_of_int a) (enat_of_int b) with
+                    (match E.run_plain_uni (uni_now ()) src (enat_of_int a) (enat_of_int b) with
                      | None -> print_endline "P"
                      | Some (idx, toks) ->
                          let i = String.concat " " (List.map (fun k -> string_of_int (int_of_enat k)) idx) in
